@@ -84,8 +84,13 @@ def bombs(quick=False):
     hdr = bytes.fromhex("8365432d444e53")
     out += [hdr + b for b in out[:6]] + [hdr + b"\xa0" + b for b in out[:6]]
     # skip_item reached through an unknown preamble key
-    out.append(hdr + b"\xa1\x18\x63" + b"\x81" * 200000 + b"\x01")
-    out.append(hdr + b"\xa1\x18\x63" + b"\x9f" * 200000)
+    deep = 250000 if quick else 4000000
+    for opener, closer in ((b"\x81", b"\x01"), (b"\x9f", b""), (b"\xc1", b"\x00"), (b"\xa1\x00", b"\x00"), (b"\xbf\x00", b""),
+                           (b"\xc1\x81", b"\x00"), (b"\xd8\x20\x9f", b"")):
+        out.append(hdr + b"\xa1\x18\x63" + opener * deep + closer)          # skipped as the value of an unknown preamble key
+    # ... and as an unknown member of a block of an otherwise valid file
+    valid_head = bytes.fromhex("8365432d444e53a30001010003") + bytes.fromhex("81a100a5001903e8010a02a4001a0003ffff011a0001ffff0203030303800480") + b"\x9f"
+    out.append(valid_head + b"\xa2\x00\xa1\x00\x82\x00\x00\x18\x64" + b"\xc1" * deep + b"\x00" + b"\xff")
     out.append(bytes.fromhex("5b0000010000000000")); out.append(hdr + bytes.fromhex("a1187b5b0000010000000000"))
     return out
 
